@@ -150,14 +150,17 @@ ExpectUVs(c) ==
 (* ------------------------- combinatorics on a real index buffer ------- *)
 LTris(c, T) == [i \in DOMAIN T |-> <<Lid(c, T[i][1]), Lid(c, T[i][2]), Lid(c, T[i][3])>>]
 
-\* every quad is covered by exactly two triangles which together use its four corners
+\* every quad is covered by exactly two triangles which together use its four corners and
+\* share one of its diagonals
 StripsOK(c, TL) ==
     LET TS == [i \in DOMAIN TL |-> {TL[i][1], TL[i][2], TL[i][3]}]
     IN /\ \A i \in DOMAIN TS : Cardinality(TS[i]) = 3
        /\ \A q \in Quads(c) :
              LET cs == Corners(q)
                  inq == {i \in DOMAIN TS : TS[i] \subseteq cs}
-             IN Cardinality(inq) = 2 /\ UNION {TS[i] : i \in inq} = cs
+             IN /\ Cardinality(inq) = 2 /\ UNION {TS[i] : i \in inq} = cs
+                \* .. split along a diagonal (not two triangles on the same side of the quad)
+                /\ \A i, j \in inq : i # j => TS[i] \cap TS[j] \in {{q[1], q[3]}, {q[2], q[4]}}
 
 ClosedAsStated(c, TL) ==
     LET s == SortedEdgeCodes(c, TL) IN AtMostTwice(s) /\ UsedOnce(s) = RefBoundary(c)
